@@ -1,8 +1,11 @@
-"""C13 - fast_nonMarkov_SIS honours the supplied delays.  Decided only by a bounded native stand-in (labelled bounded):
-the real simulator against a plain reference semantics on deterministic, tie-free delay rules."""
+"""C13 - fast_nonMarkov_SIS honours the supplied delays.
+Unbounded (E1): the adapter _find_trans_and_rec_delays_SIS_, the event handler _process_trans_SIS_nonMarkov_ (exact queue / status /
+row updates for one event, for any user rule and any queue), the queue rule (event_step_nmSIS: one step of the event loop preserves
+the global invariant GI_NM) and fast_nonMarkov_SIS itself.  Bounded: equality of whole histories with a plain reference semantics
+(the composition of the per-event facts over a run) - the real simulator against the reference on deterministic, tie-free rules."""
 from ..common import Report
 from ..pyvc import verify as V
-from ..contracts import nonmarkov_sis
+from ..contracts import nonmarkov_sis, fast_nm
 from . import util
 
 
@@ -13,10 +16,18 @@ def reg():
     return r
 
 
+def reg_nm():
+    r = V.Registry()
+    for c in fast_nm.contracts(verify_callees=True):
+        r.add(c)
+    r.lib_install.append(fast_nm.install)
+    return r
+
+
 def run(tier, seed):
     rep = Report('C13', tier, seed)
     # the adapter from the two user rules to the joint rule is within reach of the VC generator (the event handler is not)
-    rep.add_unit_results(util.run_jobs(util.jobs_for(reg, tier=tier)))
+    rep.add_unit_results(util.run_jobs(util.jobs_for(reg, tier=tier) + util.jobs_for(reg_nm, tier=tier)))
     from ..replay import sim_native
     rep.add(util.native_ob('native:nonMarkov-SIS-reference-semantics', 'EoN/simulation.py:fast_nonMarkov_SIS / _process_trans_SIS_nonMarkov_', sim_native.c13_native,
                            '400 random graphs with 2..6 nodes (a fifth without a node 0), 1-2 seeds, tmin in {0, 1.5, -3.25}, 4 horizons, random silent and short-lived nodes; duration and delay lists (0-3 delays per neighbour, a third of the trials with '
@@ -25,10 +36,23 @@ def run(tier, seed):
                            'neighbour is susceptible at that instant'))
     rep.bounded_is_supplementary = False
     rep.level = 'other'
-    rep.explanation = ('Unbounded for the adapter _find_trans_and_rec_delays_SIS_ only: the duration rule is asked once, first, about the node; the delay rule is asked for every neighbour with (node, neighbour, that duration, *args); the dict returned maps exactly the neighbours to the user\'s answers. Otherwise bounded: the handler _process_trans_SIS_nonMarkov_ (future_transmissions bookkeeping through closures over per-source lists) is not within reach of the '
-                       'VC generator yet; a stated-bound comparison of the real simulator with an independent reference stands in.  The clause "with exponential rules it '
-                       'reproduces the law of fast_SIS" is a statement about distributions and is not decided (the reference semantics + C02 imply it; cited).')
-    rep.assumptions += ['delays >= 0, durations > 0; all event times distinct (the property quantifies over distinct event times)',
-                        'the reference semantics is the property text: every listed delay is attempted, also those beyond the duration']
-    rep.not_covered += ['unbounded contracts for _process_trans_SIS_nonMarkov_ / fast_nonMarkov_SIS', 'equality in law with fast_SIS under exponential rules']
+    rep.explanation = ('Unbounded, per function and for every graph / user rule / queue content: (1) the adapter asks the duration rule once, first, and the delay rule for every neighbour with that duration; '
+                       '(2) _process_trans_SIS_nonMarkov_: a susceptible target becomes infected at `time`, rows / transmissions / infection_times get exactly one entry, rec_time[target] = time + the user\'s duration, '
+                       'the recovery is queued at that time iff < tmax, and every neighbour v gets exactly one event target -> v whose head and payload are, in time order, listed attempt times time + d '
+                       '(d in the user\'s list for v) containing ALL those that are admissible (after rec_time[v] when v is infected) - none only if no admissible one lies before tmax; in either case the chain '
+                       'source -> target continues with the remaining attempt times after rec_time[target]; older events and their payloads, other statuses and rows are untouched; the rule is asked exactly once '
+                       'per infection; (3) event_step_nmSIS: popping a minimal event and running its handler preserves GI_NM (rows = head counts, times non-decreasing and < tmax, pending events in [now, tmax) with '
+                       'unique counters, a pending recovery belongs to an infected node at exactly rec_time[node], one per node, every infected node has its recovery pending or rec_time >= tmax, payloads in order and '
+                       'not before their event, initial infections first); (4) fast_nonMarkov_SIS: argument checks, initial events, the loop is exactly `Q.pop_and_run()`, the rule (or the adapter with the two rules '
+                       'bound onto its signature) reaches the handlers, returned rows drop the synthetic initial entries.  Bounded: that these per-event facts compose to "the history equals the reference semantics" '
+                       'is observed by the stated-bound comparison.  The clause "with exponential rules it reproduces the law of fast_SIS" is a statement about distributions and is not decided (reference semantics + C02 imply it; cited).')
+    rep.assumptions += ['delays >= 0, durations >= 0; all event times distinct (the property quantifies over distinct event times)',
+                        'the reference semantics is the property text: every listed delay is attempted, also those beyond the duration',
+                        'attempts that are not admissible (the target is infected until after the attempt) may be pruned or kept: both satisfy the handler contract, since such an attempt cannot infect',
+                        'sorted(): assumed library contract (a rearrangement of the input in non-decreasing order); list comprehension with a filter: order-preserving sub-list (vlib/pyvc/lib.py)',
+                        'ghost state: the later attempt times carried by a queued event (its `future_transmissions` argument) are modelled as a map event counter -> list on the queue object; '
+                        'abbreviations `carries` / `payload_in_order` are unfolded only at the events a proof step names (opaque / reveal; vlib/pyvc/sorts.py:Abbrev)',
+                        'heapq / myQueue contracts as in C04']
+    rep.not_covered += ['composition of the per-event facts into equality of whole histories with the reference semantics (bounded stand-in only)',
+                        'equality in law with fast_SIS under exponential rules', 'return_full_data=True path of fast_nonMarkov_SIS (C10 covers _transform_to_node_history_)']
     return rep, util.native_replayer
